@@ -108,6 +108,12 @@ class C06(Prop):
             rule = rules[i % len(rules)]
             if rng.random() < 0.06:
                 c = self._scale_case(rng, rule)
+            elif rng.random() < 0.04:
+                # complete indifference: every ballot is one class holding all the alternatives (all scores equal,
+                # Borda totals all zero)
+                m = rng.randint(1, 6)
+                alts = gen.alt_ids(rng, m)
+                c = {"type": "toc" if m > 1 else "soc", "alts": alts, "profile": [[[list(alts)], rng.randint(1, 5)]]}
             elif rule in ("approval", "sav") and r < 0.85:
                 if rule == "sav" and rng.random() < 0.4:
                     c = self._sav_tie(rng)
@@ -146,7 +152,7 @@ class C06(Prop):
             # cyclic shifts: every alternative has the same score under every positional rule (m-way tie)
             m = rng.choice([11, 12, 25, 40])
             alts = list(range(1, m + 1))
-            weak = rule in ("plurality", "approval", "veto") and rng.random() < 0.4
+            weak = rule in ("plurality", "approval", "veto", "borda", "sav") and rng.random() < 0.4
             if weak:
                 prof = [[[alts], rng.randint(1, 3)]]       # one class holding everything
                 return {"type": "toc", "alts": alts, "profile": prof}
